@@ -27,4 +27,6 @@ func verifYield(point int) {}
 
 func verifAdopt(id int) {}
 
+func verifRetire() {}
+
 func verifWorkerID[K comparable, V any](c *Cache[K, V], s *shard[K, V]) int { return 0 }
